@@ -1,6 +1,7 @@
 """C05 - Equation language means what its arithmetic says."""
 import math
 import random
+import re
 
 import numpy as np
 
@@ -18,7 +19,7 @@ RULE = ("seeded random expression trees (depth <= 5) over the documented grammar
         "(d/dt * x and x' notations); all must equal the independent AST evaluation (float64, cross-checked with 40-digit mpmath; "
         "ill-conditioned trees discarded); non-trivial = tree has >= 4 nodes; distinct = distinct tree hash")
 DECIDING = ['eval_node_values', 'generated_function_values', 'spellings_compared', 'index_expressions', 'ddt_notation', 'prime_notation',
-            'hostile_names', 'rewritten_variable_values']
+            'hostile_names', 'rewritten_variable_values', 'derived_label_neighbour_values']
 ASSUMPTIONS = ['sigmoid is the logistic function, maxi/mini are element-wise maximum/minimum', 'argument domains are kept safe by construction',
                'ill-conditioned expressions (float64 vs mpmath differ by more than 1e-11 relative) are discarded']
 CASE_TIMEOUT = 240
@@ -238,6 +239,35 @@ def generated_path_multi(expr_str, values, notation, uname):
     return float(dy[smap['n/expr_op/zz_state']])
 
 
+def generated_path_neighbours(expr_str, values, notation, base):
+    """same as generated_path, but the circuit also contains two other nodes that both own a state variable called `base`
+    (so that PyRates derives the labels base_v1, ... for them) and are declared before the node with the expression, which
+    uses a variable literally named base_v<k>"""
+    from pyrates import OperatorTemplate, NodeTemplate, CircuitTemplate
+    lhs = "d/dt * zz_state" if notation == 'ddt' else "zz_state'"
+    variables = {'zz_state': 'output(0.0)'}
+    for k, v in values.items():
+        variables[k] = float(v)
+    op = OperatorTemplate(name='expr_op', equations=[f"{lhs} = {expr_str}"], variables=variables)
+    nb = []
+    for tag, x0 in (('a', 0.7), ('b', 0.4)):
+        nb.append(OperatorTemplate(name=f'nb_{tag}', equations=[f"{base}' = -zzk{tag}*{base}"],
+                                   variables={base: f'output({x0})', f'zzk{tag}': 2.0}))
+    c = CircuitTemplate(name='c', nodes={'p1': NodeTemplate(name='n1', operators=[nb[0]]), 'p2': NodeTemplate(name='n2', operators=[nb[1]]),
+                                         'n': NodeTemplate(name='nt', operators=[op])})
+    f, args, names, smap = c.get_run_func('vf', step_size=1e-3, vectorize=False, verbose=False, clear=True, float_precision='float64')
+    y0 = np.array(args[1], dtype=float)
+    dy = np.asarray(f(0, y0, *args[2:])).ravel()
+    # the neighbours must keep their own dynamics too
+    for tag, node, x0 in (('a', 'p1', 0.7), ('b', 'p2', 0.4)):
+        i = smap[f'{node}/nb_{tag}/{base}']
+        if abs(y0[i] - x0) > 1e-12 or abs(dy[i] + 2.0 * x0) > 1e-12:
+            raise observe.Mismatch(f"neighbour node {node} (state variable {base}, initial value {x0}) has initial state {y0[i]!r} and "
+                                   f"derivative {dy[i]!r} (expected {-2.0 * x0}) next to an operator that uses the name(s) "
+                                   f"{[k for k in values if k.startswith(base + '_v')]}")
+    return float(dy[smap['n/expr_op/zz_state']])
+
+
 def run_case(case, ctx):
     rnd = random.Random(case['cseed'])
     mp = ctx['mp']
@@ -313,6 +343,24 @@ def run_case(case, ctx):
                     raise observe.Mismatch(f"generated function gives {got3!r} for {sp[si]!r} when variable {uname} is an input driven by two "
                                            f"operators (each delivering half of {values[uname]!r}); its arithmetic value is {vmp!r} "
                                            f"(values {values}; canonical spelling {sp[0]!r})")
+            # names that resemble generated labels (x_v1) inside a circuit in which PyRates really generates such labels
+            derived_like = sorted(n for n in E.variables(e) if re.search(r'_v\d+$', n))
+            if not want and derived_like and rnd.random() < 0.7:
+                base = re.sub(r'_v\d+$', '', derived_like[0])
+                if base not in E.variables(e):
+                    si = rnd.randrange(len(sp))
+                    notation = rnd.choice(['ddt', 'prime'])
+                    try:
+                        got4 = generated_path_neighbours(sp[si], values, notation, base)
+                    except observe.Mismatch:
+                        raise
+                    except Exception as ex:
+                        raise observe.Mismatch(f"loud: generated-code path next to two nodes with a variable {base} raised {type(ex).__name__}: "
+                                               f"{ex} for spelling {si} {sp[si]!r} (values {values})")
+                    mech['derived_label_neighbour_values'] = mech.get('derived_label_neighbour_values', 0) + 1
+                    if not abs(got4 - vmp) <= tol:
+                        raise observe.Mismatch(f"generated function gives {got4!r} for {sp[si]!r} in a circuit whose other nodes own a variable "
+                                               f"{base}; its arithmetic value is {vmp!r} (values {values})")
             mech['spellings_compared'] = mech.get('spellings_compared', 0) + 1
             if len(samples) < 2:
                 samples.append({'spellings': sp, 'values': values, 'value': vmp})
